@@ -13,13 +13,13 @@ if os.path.exists('seeded/results.jsonl'):
             continue
         if r.get('rc') not in (0, 1, 2):
             continue  # aborted run
-        res[(r['seed'], r['check'])] = r
+        res[(r['seed'], r['check'], r.get('tier', 'quick'))] = r
 VERDICT = {0: 'MISSED (check passes)', 1: 'CAUGHT (VIOLATION, reproduced natively)', 2: 'inconclusive (exit 2)'}
 if '--finalize' in sys.argv:
     with open('seeded/results.jsonl', 'w') as f:
         for k in sorted(res):
             f.write(json.dumps(res[k]) + '\n')
-print('| seed | what it breaks | check run (quick tier) | verdict | first failing assertion |')
+print('| seed | what it breaks | check run | verdict | first failing assertion |')
 print('|---|---|---|---|---|')
 for d in sorted(glob.glob('seeded/*/')):
     name = os.path.basename(d.rstrip('/'))
@@ -28,9 +28,9 @@ for d in sorted(glob.glob('seeded/*/')):
         meta = json.load(open(d + 'meta.json'))
     what = (meta.get('breaks') or meta.get('what') or '').replace('|', '/').replace('\n', ' ')
     what = what[:230] + ('…' if len(what) > 230 else '')
-    rows = [r for (s, c), r in sorted(res.items()) if s == name]
+    rows = [r for (s, c, t), r in sorted(res.items()) if s == name]
     if '--finalize' in sys.argv and meta:
-        meta['evaluated'] = [{'check': r['check'], 'tier': 'quick', 'exit': r['rc'], 'verdict': VERDICT[r['rc']],
+        meta['evaluated'] = [{'check': r['check'], 'tier': r.get('tier', 'quick'), 'exit': r['rc'], 'verdict': VERDICT[r['rc']],
                               'violations': r.get('violations'), 'wall_s': r.get('wall_s'),
                               'first_failed': r.get('first_failed', '').strip(),
                               'log': f"seeded/{name}/detect_{r['check']}.log"} for r in rows]
@@ -39,4 +39,4 @@ for d in sorted(glob.glob('seeded/*/')):
         print(f'| {name} | {what} | - | not run | |')
     for r in rows:
         ff = r.get('first_failed', '').replace('FAILED', '').strip()[:150].replace('|', '/')
-        print(f"| {name} | {what} | {r['check']}, {r['wall_s']} s | {VERDICT[r['rc']]} | {ff} |")
+        print(f"| {name} | {what} | {r['check']} {r.get('tier', 'quick')}, {r['wall_s']} s | {VERDICT[r['rc']]} | {ff} |")
